@@ -632,6 +632,12 @@ class Emitter:
                 if self.tm.info(qtype(a0))['kind'] == 'vec':
                     return 'vp_%s_copy(@DST@, &(%s));' % (vt, self.emit(a0))
                 return 'vp_%s_new(@DST@, %s);' % (vt, self.emit(args[0]))
+            if len(args) == 2 and self.tm.info(qtype(args[0]))['kind'] == 'iter':
+                va, ia = self.iter_parts(args[0])
+                vb, ib = self.iter_parts(args[1])
+                if va != vb:
+                    raise ExtractError('range constructor from two containers')
+                return 'vp_%s_from_range(@DST@, &(%s), %s, %s);' % (vt, va, ia, ib)
             if len(args) == 2:
                 return 'vp_%s_fill(@DST@, %s, %s);' % (vt, self.emit(args[0]), self.emit(args[1]))
             raise ExtractError('vector constructor with %d args' % len(args))
@@ -834,7 +840,17 @@ class Emitter:
             return 'vp_copy_range(&(%s), %s, %s, &(%s), %s)' % (va, ia, ib, vd, idd)
         if name in ('stable_sort', 'iota', 'transform', 'getline'):
             raise ExtractError('std::%s needs a recipe-level handler' % name)
-        # a hep:: free function
+        if name == 'accumulate' and len(args) == 3 and self.tm.info(qtype(args[0]))['kind'] == 'iter':
+            # std::accumulate(first, last, init): left fold with operator+ (assumed contract stub)
+            self.fire('G7')
+            va, ia = self.iter_parts(args[0])
+            vb, ib = self.iter_parts(args[1])
+            if va != vb:
+                raise ExtractError('accumulate over two containers')
+            return 'vp_accumulate(&(%s), %s, %s, %s)' % (va, ia, ib, self.emit(args[2]))
+        # a hep:: free function: its declaration must be part of the hep:: AST dump
+        if rd.get('id') not in self.u.by_id:
+            raise ExtractError('call to %s, which is neither a hep:: function nor a library function with a translation' % name)
         ret, ptypes, _ = fn_param_types(fqt)
         self.fire('G9')
         cname = self.opts.get('rename', {}).get(name, name)
